@@ -17,7 +17,8 @@ RULE = ("nested dataclasses (kw_only, depth <= 3, 1..6 leaves of kind int / str 
         "some nested members are typed Optional[<dataclass>] = None, mentioned by nobody / only by files or set_defaults / by the "
         "default instance / by options) x an assignment "
         "of every leaf to a subset of the five layers {definition, default, constructor config files, --config_path files, command "
-        "line}, each mention carrying a marker value that encodes (leaf, layer, file index); for schemas with <= 3 leaves every leaf "
+        "line}, each mention carrying a marker value that encodes (leaf, layer, file index) - or, for about one mention in eight and at most "
+        "once per leaf, the falsy non-null value of the leaf's type (0 for int / Optional[int], '' for str) in any of the five layers; for schemas with <= 3 leaves every leaf "
         "is taken through all 2^5 subsets (the other leaves random; thorough: the full product on two-leaf schemas), larger schemas are "
         "sampled from VERIF_SEED; x json/yaml per file x {parse() with the un-rooted WITHOUT_ROOT layout, parse(nested_mode=DEFAULT), "
         "ArgumentParser DEFAULT / WITHOUT_ROOT with 1 or 2 destinations, files keyed by destination unless re-rooted} x 0..3 files per "
@@ -124,7 +125,8 @@ def put(doc, path, value):
     d[path[-1]] = value
 
 
-def build_case(rng, api, nm, ndest, roots, subsets, nulls_ok=True, probe=None, gen_mode="FLAT", via=None, nfiles=None, keep=None):
+def build_case(rng, api, nm, ndest, roots, subsets, nulls_ok=True, probe=None, gen_mode="FLAT", via=None, nfiles=None, keep=None,
+               p_falsy=0.12):
     """subsets: {leaf path tuple: set of layer names}.  Returns the case dict."""
     leaves = forest_leaves(roots)
     idx = {p: i + 1 for i, (p, _) in enumerate(leaves)}
@@ -138,10 +140,16 @@ def build_case(rng, api, nm, ndest, roots, subsets, nulls_ok=True, probe=None, g
         if len(p) == 2 and "config_path".startswith(p[1]):
             subsets[p].discard("cli")
 
+    falsy_at = {}
+
     def val(p, f, code, layer):
         if nulls_ok and f["kind"] == "optint" and rng.random() < 0.22:
             nulls.append(layer)
             return None
+        if p not in falsy_at and rng.random() < p_falsy:
+            # a falsy but non-null value (0 / ""), at most one mention per leaf so that it stays distinct from every marker
+            falsy_at[p] = layer
+            return "" if f["kind"] == "str" else 0
         return marker(idx[p], f["kind"], code)
 
     # definition
@@ -208,7 +216,8 @@ def build_case(rng, api, nm, ndest, roots, subsets, nulls_ok=True, probe=None, g
     cli = {}
     for p, f in leaves:
         if "cli" in subsets[p]:
-            put(cli, p, marker(idx[p], f["kind"], 30))
+            v = val(p, f, 30, "cli")
+            put(cli, p, marker(idx[p], f["kind"], 30) if v is None else v)  # an option is never given `null`
     eff_nm = nm if nm is not None else ("WITHOUT_ROOT" if api == "parse" else "DEFAULT")
     unrooted = eff_nm == "WITHOUT_ROOT" and ndest == 1
     if unrooted:
@@ -219,7 +228,7 @@ def build_case(rng, api, nm, ndest, roots, subsets, nulls_ok=True, probe=None, g
     case = dict(kind="parse", api=api, nm=nm, gen=gen_mode, roots=roots, via=via, dflt=dflt, ctor=ctor,
                 ctor_form=rng.choice(["list", "list", "str", "path"]) if len(ctor) == 1 else "list",
                 acp=acp, cli_given=cli_given, clif=clif, cli_pos=rng.choice(["front", "back"]), cli=cli,
-                unrooted=unrooted, probe=None, nulls=sorted(set(nulls)))
+                unrooted=unrooted, probe=None, nulls=sorted(set(nulls)), falsy=sorted(set(falsy_at.values())))
     case["pre"] = None
     if probe:
         apply_probe(rng, case, probe)
@@ -483,6 +492,19 @@ def gen(tier, seed):
                     subsets[p] = {"def"}
         via = "sd_dict" if (mode == 0 and api == "ap" and any("dflt" in subsets[p] for p, _ in leaves) and i % 2 == 0) else None
         cases.append(build_case(rng, api, nm, ndest, roots, subsets, via=via, nulls_ok=(i % 3 != 0)))
+    # (2d) falsy values (0, "") in every layer kind: definition, default instance, set_defaults, both file layers, command line
+    for i in range(200 if quick else 3000):
+        api, nm, ndest = apis[i % len(apis)]
+        roots = make_roots(rng, api, ndest, rng.randint(1, 4), rng.randint(1, 3), p_opt=0.3 if i % 5 == 0 else 0.0)
+        leaves = forest_leaves(roots)
+        subsets = random_subsets(rng, leaves)
+        layer = ["ctor", "clif", "dflt", "cli", "def"][i // len(apis) % 5]
+        for p, _ in leaves:
+            subsets[p] |= {layer, "def"}
+        via = None
+        if layer == "dflt" and api == "ap":
+            via = ["instance", "sd_instance", "sd_dict"][i // (5 * len(apis)) % 3]
+        cases.append(build_case(rng, api, nm, ndest, roots, subsets, via=via, nulls_ok=False, p_falsy=0.6))
     # (3) probes
     for i in range(330 if quick else 5000):
         api, nm, ndest = rng.choice(apis)
@@ -889,7 +911,7 @@ def features(case, obs):
     if case["kind"] == "union":
         return {"kind": "union", "compatible": compatible(case["a"], case["b"])}
     o = obs["obs"]
-    return {"kind": "parse", "two_step": bool(case.get("pre")), "optional_members": len(opt_member_paths(case["roots"])), "field_named_like_dest": any(f["name"] == r["dest"] for r in case["roots"] for f in r["cls"]["fields"]), "api": f"{case['api']}/{case['nm']}/{len(case['roots'])}", "gen": case["gen"], "via": case["via"],
+    return {"kind": "parse", "falsy_values_in": "+".join(case.get("falsy", [])) or "-", "two_step": bool(case.get("pre")), "optional_members": len(opt_member_paths(case["roots"])), "field_named_like_dest": any(f["name"] == r["dest"] for r in case["roots"] for f in r["cls"]["fields"]), "api": f"{case['api']}/{case['nm']}/{len(case['roots'])}", "gen": case["gen"], "via": case["via"],
             "nctor": len(case["ctor"]), "nclif": len(case["clif"]) if case["cli_given"] else "-", "probe": case["probe"],
             "leaves": len(forest_leaves(case["roots"])), "depth": max(depth_of(r["cls"]) for r in case["roots"]),
             "nulls": bool(case["nulls"]), "ctor_form": case["ctor_form"], "acp": case["acp"],
